@@ -69,34 +69,42 @@ namespace occa {
     }
 
     // Setup @outer loops
-    std::string outerForLoopsStart, outerForLoopsEnd;
+    std::string outerForLoopsStart, outerForLoopsEnd, outerIteratorsInit;
     for (int i = 0; i < outerIterationCount; ++i) {
       outerForLoopsStart += buildOuterLoop(loopScope, i);
       outerForLoopsEnd += "}";
+      outerIteratorsInit += outerIterations[i].buildIteratorInitializer(
+        "OUTER_INDEX_" + std::to_string(i)
+      );
     }
     loopScope.props["defines/OCCA_LOOP_START_OUTER_LOOPS"] = outerForLoopsStart;
     loopScope.props["defines/OCCA_LOOP_END_OUTER_LOOPS"] = outerForLoopsEnd;
 
     loopScope.props["defines/OCCA_LOOP_INIT_OUTER_INDEX"] = (
-      buildIndexInitializer("OCCA_LOOP_OUTER_INDEX_NAME",
-                            "OUTER_INDEX",
-                            outerIterationCount)
+      outerIteratorsInit
+      + buildIndexInitializer("OCCA_LOOP_OUTER_INDEX_NAME",
+                              "OUTER_INDEX",
+                              outerIterationCount)
     );
 
     if (innerIterationCount) {
       // Setup @inner loops
-      std::string innerForLoopsStart, innerForLoopsEnd;
+      std::string innerForLoopsStart, innerForLoopsEnd, innerIteratorsInit;
       for (int i = 0; i < innerIterationCount; ++i) {
         innerForLoopsStart += buildInnerLoop(loopScope, i);
         innerForLoopsEnd += "}";
+        innerIteratorsInit += innerIterations[i].buildIteratorInitializer(
+          "INNER_INDEX_" + std::to_string(i)
+        );
       }
       loopScope.props["defines/OCCA_LOOP_START_INNER_LOOPS"] = innerForLoopsStart;
       loopScope.props["defines/OCCA_LOOP_END_INNER_LOOPS"] = innerForLoopsEnd;
 
       loopScope.props["defines/OCCA_LOOP_INIT_INNER_INDEX"] = (
-        buildIndexInitializer("OCCA_LOOP_INNER_INDEX_NAME",
-                              "INNER_INDEX",
-                              innerIterationCount)
+        innerIteratorsInit
+        + buildIndexInitializer("OCCA_LOOP_INNER_INDEX_NAME",
+                                "INNER_INDEX",
+                                innerIterationCount)
       );
     } else {
       // Nothing to setup for @inner loops
